@@ -101,6 +101,43 @@ impl<'tcx> Ex<'tcx> {
         }
         d.set("size", J::UInt(l.size.bytes() as u128));
         d.set("align", J::UInt(l.align.abi.bytes() as u128));
+        if let Variants::Multiple { tag, tag_encoding, tag_field, variants, .. } = &l.variants {
+            let mut e = J::obj();
+            let tag_off = match &l.fields {
+                FieldsShape::Arbitrary { offsets, .. } => offsets[*tag_field].bytes(),
+                _ => 0,
+            };
+            e.set("tag_off", J::UInt(tag_off as u128));
+            e.set("tag_size", J::UInt(tag.size(&self.tcx.data_layout).bytes() as u128));
+            match tag_encoding {
+                rustc_abi::TagEncoding::Direct => {
+                    e.set("enc", J::s("direct"));
+                }
+                rustc_abi::TagEncoding::Niche { untagged_variant, niche_variants, niche_start } => {
+                    e.set("enc", J::s("niche"));
+                    e.set("untagged", J::UInt(untagged_variant.as_usize() as u128));
+                    e.set("niche_first", J::UInt(niche_variants.start().as_usize() as u128));
+                    e.set("niche_last", J::UInt(niche_variants.end().as_usize() as u128));
+                    e.set("niche_start", J::UInt(*niche_start));
+                }
+            }
+            let mut vs = Vec::new();
+            for v in variants.iter() {
+                let offs = match &v.fields {
+                    FieldsShape::Arbitrary { offsets, .. } => arr(offsets.iter().map(|o| J::UInt(o.bytes() as u128))),
+                    _ => J::Arr(vec![]),
+                };
+                vs.push(offs);
+            }
+            e.set("variant_offs", J::Arr(vs));
+            if let ty::Adt(def, _) = t.kind() {
+                if def.is_enum() {
+                    let ds: Vec<J> = def.discriminants(self.tcx).map(|(_, d)| J::UInt(d.val)).collect();
+                    e.set("discrs", J::Arr(ds));
+                }
+            }
+            d.set("enum_layout", e);
+        }
         if let Variants::Single { .. } = l.variants {
             match &l.fields {
                 FieldsShape::Arbitrary { offsets, .. } => {
@@ -234,6 +271,19 @@ impl<'tcx> Ex<'tcx> {
             }
             ty::Param(p) => {
                 d.set("k", J::s("param")).set("name", J::s(p.name.to_string()));
+            }
+            ty::Pat(base, _) => {
+                // pattern type (e.g. `*const T is !null` inside NonNull): same representation as its base
+                let mut bd = self.ty_desc(base, env);
+                bd.set("pat_of", self.ty(base, env));
+                if let J::Obj(o) = &mut bd {
+                    for (k, v) in o.iter_mut() {
+                        if k == "s" {
+                            *v = J::s(format!("{}", t));
+                        }
+                    }
+                }
+                return bd;
             }
             ty::Alias(..) => {
                 d.set("k", J::s("alias"));
@@ -627,6 +677,9 @@ impl<'tcx> Ex<'tcx> {
         let tcx = self.tcx;
         let mut d = J::obj();
         d.set("argc", J::UInt(body.arg_count as u128));
+        if let Some(sa) = body.spread_arg {
+            d.set("spread", J::UInt(sa.as_usize() as u128));
+        }
         let locals: Vec<J> = body.local_decls.iter().map(|l| self.ty(l.ty, env)).collect();
         d.set("locals", J::Arr(locals));
         let mut names = Vec::new();
